@@ -145,6 +145,18 @@ pub fn check(cx: &Cx, rep: &mut Report) {
             rep.fail(P, "R5", format!("wrong_actor;hk={:?}", o.hk), format!("msg {} submitted through a {:?} derived from actor tag {} was handled by actor tag {}", o.msg, o.hk, o.tag, inv.tag), vec![o.b, inv.i]);
         }
     }
+    // R2 (cont.): "restart from the actor's own context succeeds" means the restart *happens*, not only that the call
+    // returns Ok: every accepted request is followed by a restart (the evidence of C07.R3 `restart_count`)
+    {
+        let mut sub = Report::default();
+        super::c07::check(cx, &mut sub);
+        if let Some(n) = sub.premises.get("C07.R3.restart_count") {
+            rep.premise_n("C15.R2.accepted_restart_happens", *n);
+        }
+        for v in sub.violations.into_iter().filter(|v| v.rule == "R3" && v.sig == "restart_count") {
+            rep.fail(P, "R2", "c07:restart_count", v.msg, v.at);
+        }
+    }
     // R6: "keeps the actor fully functional" begins with keeping it running: whatever kind the remaining strong
     // handles are of, the actor does not begin to terminate while one is held and nobody stopped it (the evidence of
     // C05.R1; on L2 the count is a lower bound, see DESIGN §11)
